@@ -1260,7 +1260,7 @@ def build(chk: Check) -> None:
     chk.sub("sched_dfs2", o_dfs, enum=e_dfs, exhaustive_tiers=("thorough",), budget_s={"quick": 60, "thorough": 850})
     chk.sub("sink_finalise", o_sink, strategy=s_sink(), n={"quick": 3000, "thorough": 80000},
             budget_s={"quick": 40, "thorough": 600})
-    chk.sub("sink_limits", o_limits, strategy=s_limits(), n={"quick": 3000, "thorough": 100000},
+    chk.sub("sink_limits", o_limits, cov={"quick": 1500, "thorough": 60000}, strategy=s_limits(), n={"quick": 3000, "thorough": 100000},
             budget_s={"quick": 20, "thorough": 300})
     chk.sub("s3_limits", o_s3_limits, enum=e_s3_limits, exhaustive_tiers=("quick", "thorough"),
             budget_s={"quick": 20, "thorough": 60})
